@@ -94,10 +94,9 @@ def Db.inOrder (db : Db) (order : List Bytes) : List (Bytes × Entry) := db.map.
 
 /-- the closure run for one partition (the upload succeeds) -/
 def s3pSnapPartition (h : Bytes → Nat) (order : List Bytes) (st : Db × Objs × Nat) (p : Nat) : Db × Objs × Nat :=
-  let (db, objs, clock) := st
-  let inPart := (db.inOrder order).filter fun (k, _) => h k = p
-  let s := inPart.foldl (fun s (k, e) => s3pSnapKey p s k e) ({ db, clock } : S3PSt)
-  (s.db, AL.put objs (s3pObjKey db.name p) s.buf, s.clock)
+  let inPart := (st.1.inOrder order).filter fun x => h x.1 = p
+  let s := inPart.foldl (fun s x => s3pSnapKey p s x.1 x.2) ({ db := st.1, clock := st.2.2 } : S3PSt)
+  (s.db, AL.put st.2.1 (s3pObjKey st.1.name p) s.buf, s.clock)
 
 def insertNat (x : Nat) : List Nat → List Nat
   | [] => [x]
@@ -153,16 +152,18 @@ def partNameOf (objKey : Bytes) : Bytes :=
 def s3pPartitionList (objs : Objs) (name : Bytes) : List Bytes :=
   objs.filterMap fun (k, _) => if Bytes.startsWith k (s3Prefix ++ name ++ [47]) then some (partNameOf k) else none
 
+/-- one partition of `read_data_from_cloud` (a failed GET is retried and then reported: the start-up panics) -/
+def s3pLoadStep (objs : Objs) (name : Bytes) (acc : Option (KV × Nat)) (pn : Bytes) : Option (KV × Nat) :=
+  match acc with
+  | none => none
+  | some (map, clock) =>
+    match AL.get? objs (s3Prefix ++ name ++ [47] ++ pn ++ b!".nun"), Bytes.parseU64 pn with
+    | some obj, some part => s3pLoadLoop obj part (obj.length + 1) 0 map clock
+    | _, _ => none
+
 /-- `read_data_from_cloud`: `none` = the start-up panics -/
 def s3pLoadDb (objs : Objs) (name : Bytes) (clock : Nat) : Option (Db × Nat) :=
-  let res := (s3pPartitionList objs name).foldl (fun (acc : Option (KV × Nat)) pn =>
-    match acc with
-    | none => none
-    | some (map, clock) =>
-      match AL.get? objs (s3Prefix ++ name ++ [47] ++ pn ++ b!".nun"), Bytes.parseUnsigned 18446744073709551616 pn with
-      | some obj, some part => s3pLoadLoop obj part (obj.length + 1) 0 map clock
-      | _, _ => none) (some ([], clock))
-  match res with
+  match (s3pPartitionList objs name).foldl (s3pLoadStep objs name) (some ([], clock)) with
   | some (map, clock) => some ({ name, id := 1, strategy := .arbiter, map, watchers := [], conns := 0 }, clock)
   | none => none
 
